@@ -57,6 +57,25 @@ def cascade_solver(ts):
     return S
 
 
+PSQ = [(0.0, (Fr(1), Fr(0))), (0.5, (Fr(0), Fr(1))), (1.0, (Fr(-1), Fr(0))), (1.5, (Fr(0), Fr(-1)))]
+
+
+def param_cascade_solver(n):
+    """a cascade of phase shifters, each with its OWN parameter name (PS0, PS1, ...): the parameter dictionary grows with
+    the circuit (hundreds of names), every leaf sees all of it"""
+    with lk.Solver() as S:
+        prev = None
+        for k in range(n):
+            st = lk.PhaseShifter().put(param_mapping={"PS": f"PS{k}"})
+            if prev is None:
+                lk.Pin("in").put(st.pin["a0"])
+            else:
+                lk.connect(prev.pin["b0"], st.pin["a0"])
+            prev = st
+        lk.Pin("out").put(prev.pin["b0"])
+    return S
+
+
 def cascade_ctor(ts):
     """the same cascade given as a netlist: Solver(structures=[...], connections={...}), then the two exposures"""
     from lekkersim.structure import Structure
@@ -127,9 +146,10 @@ class ClosedFormStream(Stream):
 
     def generate(self, rng, tier):
         sizes = [("cascade", 200), ("cascade", 1000), ("nest", 16), ("nest", 40), ("placed", 300), ("cascade_ctor", 300),
-                 ("placed_flat", 200), ("wide", 2)] if tier == "quick" else \
+                 ("placed_flat", 200), ("wide", 2), ("cascade_params", 150)] if tier == "quick" else \
                 [("cascade", 500), ("cascade", 2000), ("cascade", 2000), ("nest", 40), ("nest", 60), ("placed", 800),
-                 ("cascade_ctor", 1500), ("placed_flat", 600), ("wide", 2), ("wide", 4)]
+                 ("cascade_ctor", 1500), ("placed_flat", 600), ("wide", 2), ("wide", 4), ("cascade_params", 70),
+                 ("cascade_params", 400)]
         out = []
         for kind, n in sizes:
             idx = [rng.randrange(len(PHASES) - 1) for _ in range(n)]
@@ -139,7 +159,7 @@ class ClosedFormStream(Stream):
         return out
 
     def run(self, d):
-        ts = [PHASES[i] for i in d["idx"]]
+        ts = [PHASES[i] for i in d["idx"]] if d["kind"] != "cascade_params" else [PSQ[i % 4][1] for i in d["idx"]]
         prod = (Fr(1), Fr(0))
         for t in ts:
             prod = cmulf(prod, t)
@@ -151,6 +171,8 @@ class ClosedFormStream(Stream):
         expected = [prod, (Fr(0), Fr(0)), prod, (Fr(0), Fr(0))]
         try:
             def go():
+                if d["kind"] == "cascade_params":
+                    return param_cascade_solver(len(ts)).solve(**{f"PS{k}": PSQ[i % 4][0] for k, i in enumerate(d["idx"])})
                 S = (wide_solver(ts, 260) if d["kind"] == "wide" else
                      cascade_solver(ts) if d["kind"] == "cascade" else
                      cascade_ctor(ts) if d["kind"] == "cascade_ctor" else
